@@ -1,0 +1,30 @@
+//go:build verif
+
+package schema
+
+// Test-only accessors for the verification harness (build tag verif): the methods of the
+// two unexported signature record types.
+
+func VerifAdvSigRecord(domain *string, codec, advID []byte) (string, []byte, []byte, error) {
+	r := &advSignatureRecord{domain: domain, codec: codec, advID: advID}
+	m, err := r.MarshalRecord()
+	return r.Domain(), r.Codec(), m, err
+}
+
+func VerifEpSigRecord(domain *string, codec, payload []byte) (string, []byte, []byte, error) {
+	r := &epSignatureRecord{domain: domain, codec: codec, payload: payload}
+	m, err := r.MarshalRecord()
+	return r.Domain(), r.Codec(), m, err
+}
+
+func VerifAdvSigUnmarshal(buf []byte) ([]byte, error) {
+	r := &advSignatureRecord{}
+	err := r.UnmarshalRecord(buf)
+	return r.advID, err
+}
+
+func VerifEpSigUnmarshal(buf []byte) ([]byte, error) {
+	r := &epSignatureRecord{}
+	err := r.UnmarshalRecord(buf)
+	return r.payload, err
+}
